@@ -24,7 +24,7 @@ namespace awkward {
       GrowableBuffer<std::complex<double>>::empty(options, old.reserved());
     int64_t* oldraw = old.ptr().get();
     std::complex<double>* newraw = buffer.ptr().get();
-    for (int64_t i = 0;  i < 2*old.length();  i++) {
+    for (int64_t i = 0;  i < old.length();  i++) {
       newraw[i] = {static_cast<double>(oldraw[i]), 0};
     }
     buffer.set_length(old.length());
